@@ -12,6 +12,7 @@ import (
 	"sort"
 	"strings"
 	"time"
+	"verifharness/pgmem"
 
 	"github.com/shutter-network/shutter/shlib/puredkg"
 	"github.com/shutter-network/shutter/shlib/shcrypto"
@@ -34,6 +35,14 @@ type spec struct {
 	extra    int // an additional empty block is closed with probability extra/10
 	byzFirst bool
 	restart  int // an honest keyper process is restarted before its step with probability restart/20
+	// reloadMask: honest keyper i is restarted before every one of its steps (it always works from
+	// the state it stored) when bit i is set, and never when it is clear (it works from memory)
+	reloadMask uint
+	// dbFaults: database faults (connect timeouts, read timeouts, dropped connections, failed
+	// statements) are injected into honest keyper faultKeyper's steps with probability dbFaults/10
+	dbFaults    int
+	faultKeyper int
+	sets        int // keyper sets known from the start (2: two key generations run at the same time)
 	// pause: this honest keyper is not scheduled during the given phase of eon 1 (its messages of
 	// that phase land late); -1: nobody
 	pause      int
@@ -54,7 +63,7 @@ func (s spec) String() string {
 	if s.pause >= 0 {
 		ps = fmt.Sprintf(" pause=k%d/%s", s.pause, s.pausePhase)
 	}
-	return fmt.Sprintf("%s n=%d t=%d phase=%d sched=%d skip=%d/%d extra=%d byzFirst=%t restart=%d/20%s %s", s.family, s.n, s.t, s.phaseLen, s.sched, s.skip, s.maxSkip, s.extra, s.byzFirst, s.restart, ps, strings.Join(bs, " "))
+	return fmt.Sprintf("%s n=%d t=%d phase=%d sched=%d skip=%d/%d extra=%d byzFirst=%t restart=%d/20 reload=%b sets=%d%s %s", s.family, s.n, s.t, s.phaseLen, s.sched, s.skip, s.maxSkip, s.extra, s.byzFirst, s.restart, s.reloadMask, s.sets, ps, strings.Join(bs, " "))
 }
 
 var specs []spec
@@ -73,7 +82,7 @@ func main() {
 		Level: "fault_enumeration",
 		Rule: "case = one complete DKG run over the real shuttermint app with repository keypers as the honest ones and harness-played Byzantine keypers; " +
 			"family byz3 = every strategy in {commitment: correct|none|wrong degree|duplicate} x {eval per victim: correct|wrong|none}^2 x {false accusation: none|victim a|victim b} x {apology: correct|wrong|none} x {in phase|after phase} for each Byzantine index of n=3,t=2 (exhaustive), under a regular schedule, plus seeded irregular schedules; " +
-			"family byzN = seeded strategies for n=4 (t=3: one Byzantine; t=2: two) and n=5 (t=3: two); sampled strategies additionally use undecryptable evaluations, evaluations plus the group order, early accusations, unsolicited apologies, wrong-eon messages and messages naming outsiders or the sender itself; in the seeded families honest keyper processes are additionally restarted between two iterations of their main loop (fresh in-memory state, same database); family byz3-late-honest = an honest keyper is not scheduled through one phase of the run (late dealing / late accusation / late apology) while the Byzantine keyper deals it a wrong evaluation and accuses it; family honest = all keypers honest, seeded schedules (step order, skipped steps, empty blocks, phase length 4..8, n in 3..5). " +
+			"family byzN = seeded strategies for n=4 (t=3: one Byzantine; t=2: two) and n=5 (t=3: two); sampled strategies additionally use undecryptable evaluations, evaluations plus the group order, early accusations, unsolicited apologies, wrong-eon messages and messages naming outsiders or the sender itself; in the seeded families honest keyper processes are additionally restarted between two iterations of their main loop (fresh in-memory state, same database); family byz3-late-honest = an honest keyper is not scheduled through one phase of the run (late dealing / late accusation / late apology) while the Byzantine keyper deals it a wrong evaluation and accuses it; family reload-diff = some honest keypers are restarted before every step (they always work from the state they stored), the others never, with a Byzantine keyper that also sends unsolicited apologies revealing 0, 1 or order-1, half of the runs with two keyper sets so that two key generations are active at once; family db-faults = one honest keyper's database connection fails now and then (connect timeout, read timeout, dropped connection, failed statement; its step fails and the main loop runs again) while it lags behind the chain; family honest = all keypers honest, seeded schedules (step order, skipped steps, empty blocks, phase length 4..8, n in 3..5). " +
 			"distinct = spec string; non-trivial = at least one honest keyper reported success (agreement is then checked) ",
 		Assumptions: []string{
 			"Tendermint is replaced by smchain: the harness chooses block boundaries; keyper broadcasts execute into the open block",
@@ -94,6 +103,9 @@ func main() {
 			agg.Require("byz_excluded_runs", 10)
 			agg.Require("apology_repaired_runs", 5)
 			agg.Require("honest_keyper_restarts", 50)
+			agg.Require("runs_reload-diff", 100)
+			agg.Require("runs_with_two_key_generations_active_at_once", 50)
+			agg.Require("steps_failed_by_an_injected_db_fault", 200)
 			agg.Require("runs_with_an_honest_keyper_paused_through_a_phase", 20)
 		},
 	})
@@ -178,6 +190,63 @@ func prepare(env *vlib.Env) (int, error) {
 		}
 		specs = append(specs, spec{family: "honest", n: n, t: t, phaseLen: int64(4 + rng.Intn(5)), sched: rng.Uint64(), skip: rng.Intn(5), maxSkip: 1 + rng.Intn(2), extra: rng.Intn(4), restart: rng.Intn(3)})
 	}
+	// reload-diff: some honest keypers rebuild their state from the database before every step, the
+	// others never do; whatever the stored form loses or alters shows up as a disagreement
+	nR := env.Scale(240, 6000)
+	unsol := []string{"zero", "zero", "one", "order-1", ""}
+	for i := 0; i < nR; i++ {
+		sh := []nt{{3, 2, 1}, {3, 2, 1}, {4, 3, 1}, {4, 2, 2}, {5, 3, 2}}[i%5]
+		bz := map[int]dkgsim.Strategy{}
+		for _, b := range rng.Perm(sh.n)[:sh.f] {
+			st := randStrategy(sh.n, b)
+			if i%2 == 0 {
+				// a dealer nobody has a reason to accuse
+				st.Commitment, st.Late, st.CheckIn = "correct", false, true
+				for v := range st.Eval {
+					st.Eval[v] = "correct"
+				}
+			}
+			st.UnsolicitedApology = vlib.Pick(rng, unsol)
+			bz[b] = st
+		}
+		var honestIdx []int
+		for k := 0; k < sh.n; k++ {
+			if _, ok := bz[k]; !ok {
+				honestIdx = append(honestIdx, k)
+			}
+		}
+		// at least one reloading and one in-memory honest keyper
+		mask := uint(0)
+		p := rng.Perm(len(honestIdx))
+		mask |= 1 << uint(honestIdx[p[0]])
+		for _, j := range p[2:] {
+			if rng.Bool() {
+				mask |= 1 << uint(honestIdx[j])
+			}
+		}
+		specs = append(specs, spec{family: "reload-diff", n: sh.n, t: sh.t, phaseLen: int64(4 + rng.Intn(4)), byz: bz, sched: rng.Uint64(), byzFirst: rng.Bool(),
+			skip: rng.Intn(2), maxSkip: 1, extra: rng.Intn(2), reloadMask: mask, sets: 1 + (i/5)%2})
+	}
+	// db-faults: one honest keyper's database connection misbehaves now and then (the keyper's main
+	// loop just runs again); its pool opens a new connection for every access so that connect
+	// timeouts can hit any of them. The keyper regularly lags some blocks behind.
+	nF := env.Scale(240, 6000)
+	for i := 0; i < nF; i++ {
+		sh := []nt{{3, 2, 1}, {3, 2, 1}, {4, 3, 1}, {3, 2, 0}}[i%4]
+		bz := map[int]dkgsim.Strategy{}
+		for _, b := range rng.Perm(sh.n)[:sh.f] {
+			bz[b] = randStrategy(sh.n, b)
+		}
+		fk := rng.Intn(sh.n)
+		for {
+			if _, ok := bz[fk]; !ok {
+				break
+			}
+			fk = (fk + 1) % sh.n
+		}
+		specs = append(specs, spec{family: "db-faults", n: sh.n, t: sh.t, phaseLen: int64(5 + rng.Intn(4)), byz: bz, sched: rng.Uint64(), byzFirst: rng.Bool(),
+			skip: 2 + rng.Intn(3), maxSkip: 1 + rng.Intn(2), extra: 1 + rng.Intn(4), dbFaults: 2 + rng.Intn(4), faultKeyper: fk, sets: 1 + (i/4)%2})
+	}
 	// an honest keyper whose messages of one phase land late: the dealer's victim during the
 	// accusing phase (late accusation), the falsely accused during the apologizing phase (late
 	// apology), a dealer during the dealing phase
@@ -214,7 +283,16 @@ func runCase(env *vlib.Env, idx int, rep *vlib.Reporter) {
 		_, isByz := sp.byz[i]
 		honest[i] = !isByz
 	}
-	s, err := dkgsim.NewSim(ctx, env.Seed^uint64(idx)*0x9E3779B97F4A7C15, sp.n, sp.t, sp.phaseLen, honest)
+	nsets := 1
+	if sp.sets > 1 {
+		nsets = sp.sets
+	}
+	if sp.dbFaults > 0 {
+		dkgsim.RedialKeyper = sp.faultKeyper
+	} else {
+		dkgsim.RedialKeyper = -1
+	}
+	s, err := dkgsim.NewSimSets(ctx, env.Seed^uint64(idx)*0x9E3779B97F4A7C15, sp.n, sp.t, sp.phaseLen, honest, nsets)
 	if err != nil {
 		rep.Inconclusive("setup: " + err.Error())
 		return
@@ -232,6 +310,7 @@ func runCase(env *vlib.Env, idx int, rep *vlib.Reporter) {
 	rounds := 0
 	restarts := 0
 	paused := 0
+	faultsFired, faultSteps := 0, 0
 	for ; rounds < maxRounds; rounds++ {
 		if sp.byzFirst {
 			for _, b := range byz {
@@ -256,7 +335,7 @@ func runCase(env *vlib.Env, idx int, rep *vlib.Reporter) {
 				continue
 			}
 			skipped[i] = 0
-			if sp.restart > 0 && rng.Chance(sp.restart, 20) {
+			if sp.reloadMask&(1<<uint(i)) != 0 || (sp.restart > 0 && rng.Chance(sp.restart, 20)) {
 				// the process is stopped between two iterations of its main loop and started again
 				if err := k.Restart(ctx); err != nil {
 					rep.Inconclusive("restart: " + err.Error())
@@ -264,7 +343,53 @@ func runCase(env *vlib.Env, idx int, rep *vlib.Reporter) {
 				}
 				restarts++
 			}
-			if err := k.Step(ctx); err != nil {
+			injected := ""
+			var rt0, df0 int
+			if sp.dbFaults > 0 && i == sp.faultKeyper {
+				inc := k.Incarnation()
+				rt0, _ = k.Node.DB.RoundTrips(inc)
+				var dials int
+				dials, df0 = k.Node.DB.Dials(inc)
+				k.Node.DB.SetFaultPlan(inc, nil)
+				k.Node.DB.SetDialFaults(inc)
+				if rng.Chance(sp.dbFaults, 10) {
+					switch rng.Intn(5) {
+					case 0, 1:
+						at := dials + rng.Intn(6)
+						k.Node.DB.SetDialFaults(inc, at)
+						injected = fmt.Sprintf("connect-timeout@%d", at-dials)
+					default:
+						ki := rng.Intn(3)
+						kind := []pgmem.FaultKind{pgmem.TimeoutConn, pgmem.DropConn, pgmem.FailStatement}[ki]
+						at := rt0 + rng.Intn(24)
+						k.Node.DB.SetFaultPlan(inc, &pgmem.FaultPlan{Faults: []pgmem.Fault{{At: at, Kind: kind}}})
+						injected = fmt.Sprintf("%s@%d", []string{"read-timeout", "dropped-connection", "failed-statement"}[ki], at-rt0)
+					}
+				}
+			}
+			err := k.Step(ctx)
+			if injected != "" {
+				inc := k.Incarnation()
+				rt1, _ := k.Node.DB.RoundTrips(inc)
+				_, df1 := k.Node.DB.Dials(inc)
+				fired := df1 > df0
+				if !fired && !strings.HasPrefix(injected, "connect") {
+					var at int
+					fmt.Sscanf(injected[strings.Index(injected, "@")+1:], "%d", &at)
+					fired = rt1 > rt0+at
+				}
+				k.Node.DB.SetFaultPlan(inc, nil)
+				k.Node.DB.SetDialFaults(inc)
+				if fired {
+					faultsFired++
+					rep.Obs("db_faults_fired_"+injected[:strings.Index(injected, "@")], 1)
+					if err != nil {
+						faultSteps++
+						err = nil // the step failed because of the injected fault; the main loop tries again
+					}
+				}
+			}
+			if err != nil {
 				rep.Violationf("keyper-step-error", map[string]any{"spec": desc, "keyper": i, "round": rounds, "error": err.Error()}, "honest keyper %d failed in round %d: %v", i, rounds, err)
 				return
 			}
@@ -278,13 +403,15 @@ func runCase(env *vlib.Env, idx int, rep *vlib.Reporter) {
 		if sp.extra > 0 && rng.Chance(sp.extra, 10) {
 			s.Chain.CloseBlock()
 		}
-		if finished(ctx, s, 2) {
+		if finished(ctx, s, 1+nsets) {
 			break
 		}
 	}
 	rep.Obs("runs", 1)
 	rep.Obs("runs_"+sp.family, 1)
 	rep.Obs("honest_keyper_restarts", int64(restarts))
+	rep.Obs("db_faults_fired", int64(faultsFired))
+	rep.Obs("steps_failed_by_an_injected_db_fault", int64(faultSteps))
 	if paused > 0 {
 		rep.Obs("runs_with_an_honest_keyper_paused_through_a_phase", 1)
 	}
@@ -382,6 +509,12 @@ func judge(ctx context.Context, env *vlib.Env, s *dkgsim.Sim, sp spec, desc stri
 		eons = append(eons, e)
 	}
 	sort.Slice(eons, func(i, j int) bool { return eons[i] < eons[j] })
+	for i := 1; i < len(eons); i++ {
+		if starts[eons[i]] < starts[eons[i-1]]+3*sp.phaseLen {
+			rep.Obs("runs_with_two_key_generations_active_at_once", 1)
+			break
+		}
+	}
 	anySuccess := false
 	for _, eon := range eons {
 		h0 := starts[eon]
